@@ -203,7 +203,7 @@ pub fn run(only: &[String]) -> Vec<String> {
             for (a, b) in &unions { eg.union(&ids[*a], &ids[*b]); }
             if let Err(e) = extraction_ok(&eg) { if n < 3 { n += 1; let (c, m) = e.split_once(' ').unwrap(); fails.push(format!("FAIL Extractor::extract {} after add {:?}; union {:?}: {}", c, adds, unions, m)); } }
         }
-        let seeds: u64 = if deep { 3000 } else { 150 };
+        let seeds: u64 = if deep { verif_scale(3000) } else { 150 };
         for seed in 1..=seeds {
             let mut r = Rng(seed.wrapping_mul(0x9E3779B97F4A7C15).wrapping_add(1));
             let t = xterm(&mut r, 3, 3);
